@@ -116,6 +116,38 @@ func init() {
 		}
 		return fmt.Sprintf("%s %s intact=%d", hx(lw.buf.Bytes()), strings.Join(res, ","), b2i(intact))
 	}
+	// cwrr: like cwr, but after a short write the caller retries the unaccepted tail through the same
+	// CipherWriter (the destination then takes it whole) and goes on: the destination must end up with
+	// the XOR of ALL the bytes at their running offsets.
+	ops["cwrr"] = func(a []string) string {
+		lw := &limitWriter{}
+		cw := wsutil.NewCipherWriter(lw, mask4(a[0]))
+		accs := ints(a[1])
+		var res []string
+		intact := true
+		for i, ph := range strings.Split(a[2], ",") {
+			p := unhx(ph)
+			orig := append([]byte(nil), p...)
+			acc := -1
+			if i < len(accs) {
+				acc = accs[i]
+			}
+			for len(lw.acc) < lw.i {
+				lw.acc = append(lw.acc, -1)
+			}
+			lw.acc = append(lw.acc[:lw.i], acc) // the accept for this write; retries and later writes: all
+			n, err := cw.Write(p)
+			res = append(res, fmt.Sprintf("%d:%s", n, classify(err)))
+			if err != nil && n >= 0 && n < len(p) {
+				m, err2 := cw.Write(p[n:])
+				res = append(res, fmt.Sprintf("retry%d:%s", m, classify(err2)))
+			}
+			if !bytes.Equal(orig, p) {
+				intact = false
+			}
+		}
+		return fmt.Sprintf("%s %s intact=%d", hx(lw.buf.Bytes()), strings.Join(res, ","), b2i(intact))
+	}
 	ops["mf"] = func(a []string) string { // mf <variant> <f r o m key len(ignored)> <newmask> <payload>
 		h := parseHdr(a[1:7])
 		p := unhx(a[8])
@@ -194,6 +226,7 @@ func genC02(tier string, r *rng) {
 			}
 		}
 		run(fmt.Sprintf("cwr %s %s %s", keys[r.intn(4)], strings.Join(acc, ","), strings.Join(ps, ",")))
+		run(fmt.Sprintf("cwrr %s %s %s", keys[r.intn(4)], strings.Join(acc, ","), strings.Join(ps, ",")))
 	}
 	// frame helpers
 	variants := []string{"maskWith", "maskInPlaceWith", "mask", "maskInPlace", "unmask", "unmaskInPlace"}
